@@ -220,6 +220,8 @@ Lemma p_grouped_S f (s : stream) : p_grouped cfg (S f) s =
       dop e, s <- p_fexpr cfg f PRECEDENCE_LOWEST (adv s);
       dop e, s <- p_grouped_loop cfg f e (adv s);
       if negb (is_ty T_RPAREN s) then err_cur ESyntax s
+      else if is_literal (fst e) then PErr ESyntax (snd e)          (* a grouped bare literal is not a logical expression *)
+      else if value_function cfg (fst e) then PErr EType (snd e)      (* nor is the result of a value function *)
       else if is_comparison_tok (peek_ty s) then err_peek ESyntax s
       else POk e (after_peek s).
 Proof. reflexivity. Qed.
@@ -244,13 +246,17 @@ Proof. reflexivity. Qed.
 
 Lemma p_function_S f (s : stream) : p_function cfg (S f) s =
       let tok := cur s in
-      dop args, s <- p_args_loop cfg f (adv s);
+      dop argsg, s <- p_args_loop cfg f (adv s);
+      let args := map fst argsg in
       (* env.validate_function_extension_signature(tok, args) *)
       match find_assoc (tval tok) rg with
       | None => PErr EName (tidx tok)
       | Some d =>
           if negb (length args =? length (f_args d))%nat then PErr EType (tidx tok)
-          else if check_args cfg (f_args d) args then POk (ECall (tval tok) args, tidx tok) s
+          else if check_args cfg (f_args d) args then
+            (* an argument written in parentheses is a logical expression *)
+            if grouped_ok (f_args d) (map snd argsg) then POk (ECall (tval tok) args, tidx tok) s
+            else PErr EType (tidx tok)
           else PErr EType (tidx tok)
       end.
 Proof. reflexivity. Qed.
@@ -258,7 +264,10 @@ Proof. reflexivity. Qed.
 Lemma p_args_loop_S f (s : stream) : p_args_loop cfg (S f) s =
       if is_ty T_RPAREN s then POk [] s else
       if negb (in_function_argument_map (cty s)) then err_cur ESyntax s else
+      let grouped := is_ty T_LPAREN s in
       dop e, s <- p_primary cfg f s;
+      (* grouped stays true only if no binary operator follows the parenthesized expression *)
+      let g := grouped && match binary_operator (peek_ty s) with None => true | Some _ => false end in
       dop e, s <- p_arg_infix_loop cfg f e s;
       dop _, s <-
         (if negb (ttype_eqb (peek_ty s) T_RPAREN) then
@@ -267,7 +276,7 @@ Lemma p_args_loop_S f (s : stream) : p_args_loop cfg (S f) s =
            if ttype_eqb (peek_ty s) T_RPAREN then err_peek ESyntax s else POk tt (after_peek s)
          else POk tt (after_peek s));
       dop es, s <- p_args_loop cfg f (adv s);
-      POk (fst e :: es) s.
+      POk ((fst e, g) :: es) s.
 Proof. reflexivity. Qed.
 
 Lemma p_arg_infix_loop_S f (e : expr * Z) (s : stream) : p_arg_infix_loop cfg (S f) e s =
